@@ -343,6 +343,21 @@ func eqValue(a, b *Value) *Term {
 	if a.K == KPtr && b.K == KPtr && (a.P.Cell != nil || b.P.Cell != nil) {
 		return BoolLit(a.P.Cell == b.P.Cell)
 	}
+	if a.K == KPtr && b.K == KPtr {
+		ai := a.P.Elem || len(a.P.Path) > 0
+		bi := b.P.Elem || len(b.P.Path) > 0
+		if ai || bi {
+			if samePointerShape(a.P, b.P) {
+				cs := []*Term{Eq(a.P.Base, b.P.Base)}
+				if a.P.Idx != nil {
+					cs = append(cs, Eq(a.P.Idx, b.P.Idx))
+				}
+				return And(cs...)
+			}
+			// an interior pointer is never nil and never equals a pointer of another shape
+			return False
+		}
+	}
 	ta, tb := leafTerms(a), leafTerms(b)
 	if len(ta) != len(tb) {
 		panic("eqValue: shape mismatch")
